@@ -12,6 +12,7 @@ From PV.Model Require Import Codec Pack PathTable RREntries RRWalk RRPlace.
 From PV.Model Require Master Account LongNames.
 From PV.Model Require Import AccountRR MasterRR.
 From PV.Proofs Require Import CodecProofs PackProofs PathTableLemmas PathTableProofs MasterPack MasterImage MasterBfs.
+From PV.Proofs Require AccountRRPlace.
 From PV.Proofs Require Import RRPlaceProofs MasterRRWalk MasterRRRec MasterRRTree MasterRRLayout.
 Import ListNotations.
 Local Open Scope Z_scope.
@@ -31,6 +32,15 @@ Proof.
   intros Hdt Hv Hn.
   destruct dt as [|a0 [|a1 [|a2 [|a3 [|a4 [|a5 [|a6 [|a7 dt]]]]]]]]; try discriminate Hdt.
   destruct v; [congruence|..]; destruct first; destruct Hn as [-> | ->]; vm_compute; reflexivity.
+Qed.
+
+Lemma mrr_su_place_celen i r : place i = Some r -> 0 <= p_dr_len i ->
+  0 <= pl_celen r /\ (is_some (ce_record (pl_dr r)) = false -> pl_celen r = 0).
+Proof.
+  intros H H0. split; [exact (proj2 (AccountRRPlace.arr_place_len i r H H0))|].
+  destruct (place_pass i r H H0) as (hc & ws & nm_d & nm_c & sl_d & sl_c & F & _).
+  rewrite (f_dr _ _ _ _ _ _ _ _ _ F). cbn [side_entries ce_record]. destruct hc; [discriminate|].
+  intros _. exact (proj1 (proj2 (proj2 (proj2 (f_noce _ _ _ _ _ _ _ _ _ F eq_refl))))).
 Qed.
 
 Section Dir.
@@ -88,7 +98,7 @@ Section Dir.
     exists r, b, bd, bc. split; [exact Hpl|]. split; [exact Esu|]. split; [exact Ed|]. split; [exact Ec|].
     split; [exact F5|]. split; [exact Es|]. split; [exact F1|]. split; [exact Eb|]. split; [lia|]. split; [lia|].
     split.
-    - split; [intros rest; apply (dr_roundtrip _ Hw b rest Eb)|]. split; [congruence|unfold BS; lia].
+    - split; [intros rest; apply (dr_roundtrip _ Hw b rest Eb)|]. split; [congruence|rewrite ms_BS; lia].
     - unfold mrr_spec_ok, Master.ms_enc_ok. rewrite Esu, Eb. reflexivity.
   Qed.
 
@@ -161,8 +171,9 @@ Section Dir.
       - destruct Hce as (_ & -> & H0 & H1). cbn [fst snd].
         pose proof (mrr_ce_range dt s Hwf _ c _ Hc Ek) as R. cbn [mrr_key_id fst] in R.
         destruct (mrr_er_bounds dt s Hwf) as (A & B & D). pose proof (mrr_start_nonneg dt s Hwf).
-        destruct (mrr_su_place_celen r) as [Z0 _]. unfold u32_ok, BS in *. lia.
-      - cbn [fst snd]. destruct (mrr_su_place_celen r) as [Z0 Z1]. rewrite (Z1 Hce). unfold BS. repeat split; lia. }
+        destruct (mrr_su_place_celen _ r Hpl (mrr_drlen_nonneg _ r)) as [Z0 _]. unfold u32_ok, BS in *. lia.
+      - cbn [fst snd]. destruct (mrr_su_place_celen _ r Hpl (mrr_drlen_nonneg _ r)) as [Z0 Z1]. rewrite (Z1 Hce).
+        unfold BS. repeat split; lia. }
     destruct Hbo as (B1 & B2 & B3 & B4).
     destruct c as [cm len|cm cdl ckids]; cbn [mrr_kid_spec meta_of rs_mode rs_links rs_bl rs_off rs_ext rs_len rs_fl rs_nm].
     - destruct (mrr_wf_at dt s Hwf _ _ Hc) as [b Hw]. destruct b as [|f]; [discriminate|].
@@ -184,10 +195,12 @@ Section Dir.
   Proof.
     intros Hp. destruct (mrr_wf_root dt s Hwf) as (Hv & _).
     pose proof (mrr_dot_ok v dt (mrr_is_root p) [0] Hdt Hv (or_introl eq_refl)) as Hck. unfold mrr_dot_check in Hck.
+    set (x := mk_rspec (mrr_is_root p) [0] [] [] DIR_MODE (mrr_links_at t p) (Master.ms_ext_at DB p) dl 2
+                       (if mrr_is_root p then l_er L else 0) 0).
     change (mk_pin v (mrr_is_root p) [] DIR_MODE None false false false 0 (Account.dr_len_of [0]) [dt; dt; dt])
-      with (mrr_pin v dt (mk_rspec (mrr_is_root p) [0] [] [] DIR_MODE (mrr_links_at t p) (Master.ms_ext_at DB p) dl 2
-                                   (if mrr_is_root p then l_er L else 0) 0)) in Hck.
-    destruct (place _) as [r|]; [|discriminate Hck]. exists r. split; [reflexivity|].
+      with (mrr_pin v dt x) in Hck.
+    unfold mrr_good. destruct (place (mrr_pin v dt x)) as [r|]; [|discriminate Hck]. exists r. split; [reflexivity|].
+    unfold x.
     repeat (apply andb_prop in Hck; destruct Hck as [Hck ?]).
     destruct (mrr_dir_dl _ _ _ _ Hp) as (_ & Hd & _). pose proof (mrr_dext_u32 _ _ Hp) as He.
     destruct mrr_er_u32 as [A B].
@@ -204,10 +217,12 @@ Section Dir.
     intros Hp. destruct (mrr_wf_root dt s Hwf) as (Hv & _).
     destruct (mrr_parent_dir t p _ (mrr_root_is_dir dt s Hwf) Hp) as (m' & dl' & kids' & Hpp).
     pose proof (mrr_dot_ok v dt false [1] Hdt Hv (or_intror eq_refl)) as Hck. unfold mrr_dot_check in Hck.
+    set (x := mk_rspec false [1] [] [] DIR_MODE (mrr_links_at t (removelast p))
+                       (Master.ms_ext_at DB (removelast p)) (mrr_dlen_at t (removelast p)) 2 0 0).
     change (mk_pin v false [] DIR_MODE None false false false 0 (Account.dr_len_of [1]) [dt; dt; dt])
-      with (mrr_pin v dt (mk_rspec false [1] [] [] DIR_MODE (mrr_links_at t (removelast p))
-                            (Master.ms_ext_at DB (removelast p)) (mrr_dlen_at t (removelast p)) 2 0 0)) in Hck.
-    destruct (place _) as [r|]; [|discriminate Hck]. exists r. split; [reflexivity|].
+      with (mrr_pin v dt x) in Hck.
+    unfold mrr_good. destruct (place (mrr_pin v dt x)) as [r|]; [|discriminate Hck]. exists r. split; [reflexivity|].
+    unfold x.
     repeat (apply andb_prop in Hck; destruct Hck as [Hck ?]).
     destruct (mrr_dir_dl _ _ _ _ Hpp) as (_ & Hd & _). pose proof (mrr_dext_u32 _ _ Hpp) as He.
     cbn [rs_mode rs_links rs_bl rs_off rs_ext rs_len rs_fl rs_nm].
@@ -269,7 +284,7 @@ Section Dir.
     intros Hp. destruct (mrr_dir_good p m dl kids Hp) as (HG & HL & _).
     destruct (mrr_dir_dl p m dl kids Hp) as (Hm & Hr & Hi).
     unfold mrr_dir_chunk. cbn [fst snd]. unfold mrr_dlen_at. rewrite Hp.
-    unfold Invb in Hi. cbn [dlen] in Hi. apply andb_prop in Hi. destruct Hi as [_ Hn]. rewrite <- HL in Hn.
+    unfold Invb in Hi. cbn [rst_of recs dlen] in Hi, HL. apply andb_prop in Hi. destruct Hi as [_ Hn]. rewrite <- HL in Hn.
     change BS with Master.BS in Hn, Hm.
     assert (Hsz : Forall (fun b => zlen b <= Master.BS) (map enc (mrr_dir_specs t L p))).
     { clear -HG. induction HG as [|r b rs bs (_ & _ & Hl) _ IH]; constructor; [lia|exact IH]. }
@@ -290,7 +305,7 @@ Section Dir.
   Lemma mrr_positions_complete p : mrr_is_dir_at t p = true -> In p (mrr_dir_positions t).
   Proof.
     intros H. unfold mrr_dir_positions. apply filter_In. split; [|exact H].
-    destruct (mrr_is_dir_node p H) as (m & dl & kids & Hp). exact (mrr_order_complete dt s Hwf p _ Hp).
+    destruct (mrr_is_dir_node p H) as (m & dl & kids & Hp). exact (mrr_order_complete s p _ Hp).
   Qed.
 
   Theorem mrr_master_some : master_rr dt s =
